@@ -15,6 +15,7 @@ pub mod vlemmas {
 pub mod n6 {
     use vstd::prelude::*;
     //@ include ../prelude/n6.rs
+    //@ include ../prelude/wire.rs
 }
 
 //@ include u1_lib.tpl
